@@ -71,7 +71,7 @@ func sameReferent(d *Decl, it *Item, cm *Cmd) bool {
 func c08Run(c *Ctx) {
 	r := c.R
 	d := GenDecl(c.Sub("d"), c08Cfg())
-	if c.K%7 == 6 {
+	if inHistTail(c, 40000, 600000) {
 		// scoping follows the declaration as it is now, not as it was when a command was first selected
 		histCase(c, d, []string{"late-group-on-ancestor", "late-group-in-group", "rename-namespace", "delimiter", "rename-option"}, []string{"parse"})
 		return
@@ -367,11 +367,11 @@ func init() {
 		Cases: func(tier string) int64 {
 			switch tier {
 			case "thorough":
-				return 600000
+				return 600000 + 50000 // + history cases
 			case "race":
 				return 0
 			}
-			return 40000
+			return 40000 + 3333 // + history cases
 		},
 		Run:           c08Run,
 		MinNontrivial: 300,
